@@ -77,6 +77,9 @@ import os as _os
 # interpolate one particular variable exact.  SA_LOCAL_INSENSITIVE=1 brings
 # the old behaviour back for experiments.
 LOCAL_INSENSITIVE = _os.environ.get("SA_LOCAL_INSENSITIVE") == "1"
+# set by the repository index: folds a name / attribute chain that denotes
+# a class or module constant to its value (raises if it cannot)
+FOLD = None
 
 _COMMUTATIVE = (ast.Add, ast.Mult, ast.BitOr, ast.BitAnd, ast.BitXor)
 # `a < b` is `b > a`, `a == b` is `b == a` (for the DSL's expression objects
@@ -115,6 +118,14 @@ def _m(p, s, b):
             return same(b[name], s)
         b[name] = s
         return True
+    if _is_int_const(p) and isinstance(s, (ast.Attribute, ast.Name)) \
+            and FOLD is not None:
+        # a literal in the pattern also matches a named constant of the
+        # same value (self.DATAGRAM_TAIL for 2)
+        try:
+            return FOLD(s) == p.value
+        except Exception:
+            return False
     if isinstance(p, ast.AST):
         if type(p) is not type(s):
             return False
